@@ -102,7 +102,12 @@ Definition dev_holds (d : list (path * N)) (kv : path * pval) : bool :=
 (* an apply whose device request may already have been answered while its configuration write is still to come (the
    two are one atomic action in the TLA+ specification, two separate ones in the code) *)
 Definition apply_in_flight (w : world) : bool :=
-  existsb (fun t => st_eqb (t_ca t) InProgress || match t_ra t with Some s => st_eqb s InProgress | None => false end) (w_txs w).
+  existsb (fun t =>
+     let rolled := match t_ra t with Some s => st_eqb s Complete | None => false end in
+     (* the change's request may or may not have reached the device (in progress, or recorded FAILED after an earlier
+        attempt whose record write was lost) and no completed rollback has overwritten it since *)
+     ((st_eqb (t_ca t) InProgress || st_eqb (t_ca t) Failed) && negb rolled) ||
+     match t_ra t with Some s => st_eqb s InProgress || st_eqb s Failed | None => false end) (w_txs w).
 
 Definition consistency_applied_ok (w : world) : bool :=
   match w_cfg w with
